@@ -101,7 +101,8 @@ impl Frame {
                 let len = get_integer(reader)?;
                 let len = len.try_into().map_err(|_| Error::BadEncoding)?;
                 // Recursively parse each element of the array
-                let mut items = Vec::with_capacity(len);
+                // every element takes at least one byte, don't trust the length any further
+                let mut items = Vec::with_capacity(usize::min(len, reader.remaining()));
                 for _ in 0..len {
                     items.push(Frame::parse(reader)?);
                 }
